@@ -7,4 +7,6 @@ mod c14;
 mod c15;
 #[cfg(kani)]
 mod c11;
+#[cfg(kani)]
+mod c03;
 pub mod stubs;
